@@ -530,9 +530,15 @@ class DeployEngine(object):
                 if self.c03:
                     w.ops_completed += 1
                     return {"stage": "routed", "nets": len(g.nets)}
+                given_keys = g.net_keys
+                if t.draw(4) == 0:
+                    # keys listed in another order than the routes
+                    w.probe("net_keys_other_order")
+                    given_keys = type(g.net_keys)(
+                        reversed(list(g.net_keys.items())))
                 st, tables = rigcall(w, allowed,
                                      self.rt.routing_tree_to_tables, routes,
-                                     g.net_keys)
+                                     given_keys)
                 if st == "exc":
                     return self.stage_failed("routing_tree_to_tables",
                                              tables, mv)
